@@ -48,7 +48,7 @@ def cases(prop, tier, seed):
                                 dup=dup, mode=mode, b=b, sseed=int(rs.randint(0, 50)), key=[name, n, nl, dup, mode, b, t]))
         return out
     if prop == "C14":
-        per = 10 if tier == "quick" else 30
+        per = 10 if tier == "quick" else 80
         nmax = 9 if tier == "quick" else 14
         for name in names:
             z = ZOO[name]
@@ -63,7 +63,7 @@ def cases(prop, tier, seed):
                                 b=int(bs[t % len(bs)]), sseed=int(rs.randint(0, 50)), key=[name, n, nl, t]))
         return out
     if prop in ("C05", "C06", "C08", "C09"):
-        per = 6 if tier == "quick" else 24
+        per = 6 if tier == "quick" else 90
         for name in names:
             z = ZOO[name]
             for t in range(per if not z["slow"] else max(2, per // 3)):
